@@ -365,6 +365,7 @@ def cmd_check(args):
         # obligations from extracted items
         for it in meta["extracted"]:
             modes = {p.split(":")[0]: (p.split(":")[1] if ":" in p else "full") for p in it["props"]}
+            is_dependency = pid not in modes
             if pid not in modes:
                 if not dep:
                     continue
@@ -372,7 +373,7 @@ def cmd_check(args):
                 # any property gives it
                 if (it["file"], it["sel"], it["fn_name"]) in seen_dep:
                     continue
-                modes[pid] = "full" if (not modes or "full" in modes.values()) else "safety"
+                modes[pid] = conf.get("dep_mode") or ("full" if (not modes or "full" in modes.values()) else "safety")
             seen_dep.add((it["file"], it["sel"], it["fn_name"]))
             safety_only = modes[pid] == "safety"
             qual = ""
@@ -424,6 +425,8 @@ def cmd_check(args):
                         "verifier_output": d["rendered"],
                         "item": it,
                         "unit": un,
+                        "dependency": is_dependency,
+                        "owners": sorted(p_.split(":")[0] for p_ in it["props"]),
                     })
         # obligations from lemmas
         failed_lemma_lines = set(d["gen_line"] for d in lemma_fail)
@@ -549,6 +552,13 @@ def cmd_check(args):
                 # goes through after an algebraic rearrangement is solver incompleteness on nonlinear real arithmetic far more
                 # often than a defect: undecided, not a violation.  (With a discrepancy found it IS reported, with the input.)
                 undecided.append(f"{v['obligation']}: no longer proved ({v['kind']}) but the identity probe of the real code against the closed form found no discrepancy in {replay.LAST_PROBE_CASES} cases: re-prove by hand (replay file {path})")
+                continue
+            if not found and v.get("dependency"):
+                # an obligation of a DEPENDENCY unit (a callee of this property's code, tagged for other properties): that it no
+                # longer verifies is reported by the owning properties' checks under their own rule.  For THIS property it is a
+                # violation only with a failing input replayed on the real code; without one the caller's proof has lost a
+                # premise and the check is undecided, not alarmed.
+                undecided.append(f"{v['obligation']}: dependency obligation (owned by {', '.join(v.get('owners') or []) or 'no property'}) no longer proved ({v['kind']}) and no failing input was found on the real code: undecided for {pid} (replay file {path})")
                 continue
             vio_lines.append(f"VIOLATION property={pid} replay={path}" + ("" if found else " no-failing-input-found"))
 
